@@ -19,12 +19,12 @@ from harness.pool import pmap
 
 PROP = "C06"
 
-LAW_INVS = ["Linear", "OneGivesTotal", "ShapeEffect", "RejectsOthers", "SizeRuleDiffersOnlyOnCoincidence", "Positive", "OwnMeshesOK", "EmitOwnOnce"]
+LAW_INVS = ["Linear", "OneGivesTotal", "ShapeEffect", "RejectsOthers", "SizeRuleDiffersOnlyOnCoincidence", "Positive", "EditIsolation", "SubsetLaws", "OwnMeshesOK", "EmitOwnOnce"]
 
 
-def _consts(maxf, vals, wts, quads, prevs):
+def _consts(maxf, vals, wts, quads, prevs, areas_return="fresh"):
     q = lambda xs: "{%s}" % ",".join('"%s"' % x for x in xs)
-    return "CONSTANTS\n MaxF = %d\n Vals = {%s}\n Wts = {%s}\n Quads = %s\n Prevs = %s\n" % (maxf, ",".join(map(str, vals)), ",".join(map(str, wts)), q(quads), q(prevs))
+    return "CONSTANTS\n AreasReturn = \"%s\"\n MaxF = %d\n Vals = {%s}\n Wts = {%s}\n Quads = %s\n Prevs = %s\n" % (areas_return, maxf, ",".join(map(str, vals)), ",".join(map(str, wts)), q(quads), q(prevs))
 
 
 def _nproc():
@@ -48,6 +48,9 @@ def run(ctx):
     # ---- 1. laws
     consts = _consts(3 if thorough else 2, [0, 3] if thorough else [0, 2, 3], [1, 3], quads, prevs)
     r = ctx.tlc_ok("Integrate", "INIT LawInit\nNEXT LawNext\n" + consts + "".join("INVARIANT %s\n" % i for i in LAW_INVS) + "CHECK_DEADLOCK FALSE\n", what="laws of Integrate over all small integer tables / weights; coincident-size meshes proved", workers=workers, timeout=3000)
+    rr = ctx.tlc("Integrate", "INIT LawInit\nNEXT LawNext\n" + _consts(2, [0, 3], [1, 3], quads, prevs, "cached") + "INVARIANT EditIsolation\nCHECK_DEADLOCK FALSE\n", what="a grid that hands out its stored areas must violate EditIsolation", workers=2, count=False, timeout=600)
+    if rr.violated != "EditIsolation":
+        raise Machinery("Integrate with AreasReturn = cached: expected EditIsolation to be violated, got %r" % rr.violated)
     own = None
     for v in X.prints(r.out):
         if v[0] == "M":
@@ -56,7 +59,8 @@ def run(ctx):
         raise Machinery("Integrate.tla did not emit its coincident-size meshes")
     meshes = []
     for m in own:
-        meshes.append({"id": m["id"], "nodes": [list(n) for n in m["nodes"]], "faces": [list(f) for f in m["faces"]], "nf": m["nf"], "nn": m["nn"], "ne": m["ne"]})
+        fs = [list(f) for f in m["faces"]]
+        meshes.append({"id": m["id"], "nodes": [list(n) for n in m["nodes"]], "faces": fs, "nf": m["nf"], "nn": m["nn"], "ne": m["ne"], "mixed": len(set(map(len, fs))) > 1})
     names = [("tetrahedron", 0, 0), ("cube", 0, 0), ("cuboctahedron", 0, 0), ("truncated_cube", 5, 3)]
     if thorough:
         names += [("tetrahedron", 9, 0), ("truncated_octahedron_split", 0, 0), ("rhombic_dodecahedron", 3, 2), ("cuboctahedron", 11, 5), ("octahedron", 0, 0), ("truncated_cube_split", 17, 0)]
@@ -66,14 +70,14 @@ def run(ctx):
             raise Machinery("catalogue entry %s/r%d/c%d not found" % (name, rot, cut))
         e = es[0]
         nn_used = len(e["nodes"])
-        meshes.append({"id": catalog.eid(e), "nodes": e["nodes"], "faces": e["faces"], "nf": len(e["faces"]), "nn": nn_used, "ne": e["n_edge"]})
+        meshes.append({"id": catalog.eid(e), "nodes": e["nodes"], "faces": e["faces"], "nf": len(e["faces"]), "nn": nn_used, "ne": e["n_edge"], "mixed": len(e["sizes"]) > 1})
     if not any(m["nf"] == m["nn"] for m in meshes) or not any(m["nf"] == m["ne"] for m in meshes):
         raise Machinery("no coincident-size mesh in the case scope")
     # ---- 2. cases
     gpath = os.path.join(ctx.work, "grids.ndjson")
     with open(gpath, "w") as fh:
         for m in meshes:
-            fh.write(json.dumps({"id": m["id"], "nf": m["nf"], "nn": m["nn"], "ne": m["ne"]}) + "\n")
+            fh.write(json.dumps({"id": m["id"], "nf": m["nf"], "nn": m["nn"], "ne": m["ne"], "mixed": bool(m["mixed"])}) + "\n")
     r = ctx.tlc_ok("Integrate", "INIT CaseInit\nNEXT CaseNext\n" + consts + "INVARIANT CaseSound\nINVARIANT CaseEmit\nCHECK_DEADLOCK FALSE\n", what="integration cases on %d grids" % len(meshes), workers=workers, env={"GRID_FILE": gpath}, timeout=3000)
     by_mesh = {m["id"]: m for m in meshes}
     cases = []
@@ -91,6 +95,8 @@ def run(ctx):
         cid = "%s|%s|%s|%s|%s|%s|%s" % (k["grid"], k["kind"], "x".join(map(str, k["lead"])) or "-", k["dtype"], k["quad"], k["prev"], k["pat"])
         if (k["layout"], k["storage"], k["api"]) != ("last", "numpy", "dataarray"):
             cid += "|%s|%s|%s" % (k["layout"], k["storage"], k["api"])
+        if k["sel"]:
+            cid += "|" + k["sel"]
         cases.append(
             {
                 "id": cid,
@@ -110,6 +116,9 @@ def run(ctx):
                 "storage": k["storage"],
                 "api": k["api"],
                 "square": bool(k["square"]),
+                "sel": k["sel"],
+                "sel_faces": list(k["sel_faces"]),
+                "comp_faces": list(k["comp_faces"]),
                 "expected": exp,
                 "mesh": by_mesh[k["grid"]],
             }
@@ -129,7 +138,7 @@ def run(ctx):
             raise Machinery(x["machinery"])
     # ---- 4. judge
     path = os.path.join(ctx.work, "integ.ndjson")
-    keys = ("id", "coincident", "expected", "raised", "dims", "name", "same_grid", "is_uxda", "shape", "q", "qlin", "qone", "api", "layout", "storage", "square")
+    keys = ("id", "coincident", "expected", "raised", "dims", "name", "same_grid", "is_uxda", "shape", "q", "qlin", "qone", "qpart", "api", "layout", "storage", "square", "prev")
     with open(path, "w") as fh:
         for x in recs:
             fh.write(json.dumps({k: x[k] for k in keys if k in x}) + "\n")
@@ -157,7 +166,7 @@ def run(ctx):
                 cid,
                 clause,
                 detail={k: v for k, v in by_rec[cid].items() if k != "expected"},
-                sig={"sizes": cls, "kind": c["kind"], "api": ax["api"], "layout": ax["layout"], "storage": ax["storage"], "square": bool(ax["square"])},
+                sig={"sizes": cls, "kind": c["kind"], "api": ax["api"], "layout": ax["layout"], "storage": ax["storage"], "square": bool(ax["square"]), "prev": ax["prev"], "sel": c["sel"]},
                 replay={k: c[k] for k in c},
             )
     ctx.note("cases_by_kind", stats)
